@@ -61,6 +61,7 @@ type c03Shape struct {
 	Swap    bool // the application first serves with as many do-nothing middleware, which Handlers() then replaces by the real ones
 	Info    bool `json:",omitempty"` // handlers that write send an informational status (100+position) instead of 201+position
 	Sig     int  `json:",omitempty"` // >0: handlers that return nothing use, by position, the other handler types (func(http.ResponseWriter, *http.Request), http.HandlerFunc, a reflectively invoked func(Context, *http.Request)), shifted by Sig
+	SwapN   int  `json:",omitempty"` // with Swap: this many stand-in middleware more than real ones are installed first (one Use call each), so that Handlers() replaces a longer stack by a shorter one
 	Hollow  bool `json:",omitempty"` // in every group, a nested group without handlers (holding another route) is opened and closed before the next level / the probed route is registered
 	Multi   bool `json:",omitempty"` // the route is registered through Routes with three method names given as separate leading strings
 	Wrap    bool `json:",omitempty"` // a HandlerWrapper (the identity) is configured before anything is registered
@@ -197,6 +198,11 @@ func c03Build(s c03Shape, strMask int) *c03World {
 			realMW = append(realMW, h)
 			// a stand-in that must never run once the real middleware has been installed
 			w.f.Use(func(c flamego.Context) { w.trace = append(w.trace, c03Ev{K: 'E', I: 90}) })
+			if i == 0 {
+				for x := 0; x < s.SwapN; x++ {
+					w.f.Use(func(c flamego.Context) { w.trace = append(w.trace, c03Ev{K: 'E', I: 90}) })
+				}
+			}
 			continue
 		}
 		if s.Late && i == s.M-1 {
@@ -530,6 +536,7 @@ func c03Shapes(maxN int, thorough bool) []c03Shape {
 					}
 					if m >= 1 && (thorough || n <= 3) {
 						out = append(out, c03Shape{M: m, G: g, R: r, Action: act, Swap: true})
+						out = append(out, c03Shape{M: m, G: g, R: r, Action: act, Swap: true, SwapN: 2})
 					}
 					if thorough || n <= 3 {
 						out = append(out, c03Shape{M: m, G: g, R: r, Action: act, Sig: 1}, c03Shape{M: m, G: g, R: r, Action: act, Sig: 2})
